@@ -202,7 +202,7 @@ func wideCalls(r *rand.Rand) []encCall {
 		}
 	}
 	dup := r.IntN(n + 2) // n, n+1: no repetition
-	if r.IntN(3) == 0 { // at or next to the member where the name set changes its representation
+	if r.IntN(3) == 0 {  // at or next to the member where the name set changes its representation
 		sw, total := 65, 0
 		for i, nm := range names {
 			if total += len(nm); total > 1024 {
